@@ -1,17 +1,30 @@
 package c19
 
 import (
+	"os"
 	"testing"
 
 	"verif/internal/ev"
 )
 
+// the file-backed backends need a directory that outlives the fuzz iteration in which the property is captured
+func withTmp(tp func(*testing.T)) func(*testing.T) {
+	return func(t *testing.T) {
+		tp(t)
+		d, err := os.MkdirTemp("", "c19fuzz")
+		if err != nil {
+			t.Fatal(err)
+		}
+		tmpDir = d
+	}
+}
+
 // FuzzProp: coverage-guided fuzzing of this package's rapid properties (see ev.FuzzProp); thorough tier only.
 func FuzzProp(f *testing.F) {
 	ev.FuzzProp(f, map[string]func(*testing.T){
 		"TestProp_Bitmap":       TestProp_Bitmap,
-		"TestProp_RoundTrip":    TestProp_RoundTrip,
-		"TestProp_Seek":         TestProp_Seek,
+		"TestProp_RoundTrip":    withTmp(TestProp_RoundTrip),
+		"TestProp_Seek":         withTmp(TestProp_Seek),
 		"TestProp_SeekerOffset": TestProp_SeekerOffset,
 	})
 }
